@@ -52,19 +52,38 @@ func (e *env) findingViaPrecompile() {
 func (e *env) replay(path string) {
 	var r struct {
 		Replay struct {
-			Case bcCase `json:"case"`
+			Case     *bcCase `json:"case"`
+			Scenario string  `json:"scenario"`
 		} `json:"replay"`
 	}
 	bz, err := os.ReadFile(path)
 	lib.Must(err)
 	lib.Must(json.Unmarshal(bz, &r))
-	fmt.Println("replaying bridge-call case:", fmt.Sprintf("%+v", r.Replay.Case))
-	e.bridgeCallCase(r.Replay.Case)
+	shown := 0
+	if r.Replay.Case != nil {
+		fmt.Println("replaying bridge-call case:", fmt.Sprintf("%+v", *r.Replay.Case))
+		e.bridgeCallCase(*r.Replay.Case)
+	} else {
+		// a named scenario of one of the fixed boundary suites (attestation / gov / IBC receive / SendToFx->IBC / outgoing calls):
+		// the suites are deterministic; re-run them and show what the named scenario gives on this tree
+		fmt.Println("replaying scenario:", r.Replay.Scenario)
+		e.attestationCases()
+		e.govCases(2)
+		e.ibcRecvCases()
+		e.sendToFxIbcCases()
+		e.outgoingCallCases()
+	}
 	for _, f := range e.rep.Failures {
+		if r.Replay.Case == nil {
+			if m, ok := f.Replay.(map[string]interface{}); !ok || fmt.Sprint(m["scenario"]) != r.Replay.Scenario {
+				continue
+			}
+		}
 		out, _ := json.MarshalIndent(f, "", " ")
 		fmt.Println(string(out))
+		shown++
 	}
-	if len(e.rep.Failures) == 0 {
+	if shown == 0 {
 		fmt.Println("no monitor failure on this tree")
 	}
 }
